@@ -17,3 +17,7 @@ Proof. vm_compute. reflexivity. Qed.
 Lemma close_lock_sections_hold :
   lock_sections_ranked gen_funcs = true /\ attribution_closed gen_funcs gen_entries = true.
 Proof. vm_compute. split; reflexivity. Qed.
+
+(** No invocation leaves the dealer's table with its call-timeout timer running. *)
+Lemma invocation_drops_cancel_timer_holds : invocation_drops_cancel_timer gen_invocation_drops = true.
+Proof. vm_compute. reflexivity. Qed.
